@@ -379,7 +379,10 @@ impl ProgCheck {
                         Ok(()) => Outcome::Pass,
                         Err((s, w)) => mk(s, w),
                     },
-                    _ => Outcome::Discard("crash independent of reclamation"),
+                    (_, ModeResult::Crash(c)) => {
+                        // regression inputs are known-good programs: any crash is a failure
+                        mk(format!("crash|{c}"), format!("crash even without reclamation: {c}"))
+                    }
                 }
             }
             Kind::Prune => {
@@ -398,7 +401,9 @@ impl ProgCheck {
                             Err((s, w)) => mk(s, w),
                         }
                     }
-                    _ => Outcome::Discard("crash independent of pruning"),
+                    (ModeResult::Crash(c), _) => {
+                        mk(format!("crash|{c}"), format!("crash even without the plan: {c}"))
+                    }
                 }
             }
             _ => Outcome::Discard("raw source replay is only defined for the differential checks"),
